@@ -171,6 +171,10 @@ def run(ctx, prop_id: str) -> int:
                        f"iteration variable", False,
                        f"the function at line {line} reads '{var}' and is {how}: every copy sees the last value of '{var}' "
                        f"(bind it, e.g. `lambda ..., {var}={var}: ...`)", fi, line, alias_exact=True)
+            for line, ok_, txt in written_out_minors(fi.node):
+                ctx.ob("MINOR-1", f"{fi.qualname}: the written-out 2 x 2 determinant at line {line} subtracts the cross "
+                       f"pairing", ok_, txt if ok_ else f"{txt}: the subtracted product is not M[a,d] * M[c,b] for the rows and "
+                       f"columns of the first product", fi, line, alias_exact=True)
             for st in ast.walk(fi.node):
                 if isinstance(st, ast.Assign) and len(st.targets) == 1 and isinstance(st.targets[0], ast.Attribute) and \
                         isinstance(st.targets[0].value, ast.Name) and st.targets[0].value.id == "self":
@@ -651,4 +655,39 @@ def param_mutations(fn: ast.FunctionDef, params: Optional[Set[str]] = None, nump
             for h in getattr(st, "handlers", []) or []:
                 walk(h.body)
     walk(fn.body)
+    return out
+
+
+# ---------------------------------------------------------------------------------------------------------------------
+# MINOR-1 (a written-out 2 x 2 determinant).  M[a, b] * M[c, d] - X * Y with four plain elements of one matrix is the
+# minor on rows {a, c} and columns {b, d} exactly when {X, Y} == {M[a, d], M[c, b]}.  A second product that takes its
+# indices from the same rows and columns but is not that cross pairing (an element repeated, a row used twice) is a
+# positive witness of a slip in a hand-expanded determinant (Wick minors, overlap ratios of two-site updates).
+
+def _elem(n: ast.AST):
+    if isinstance(n, ast.Subscript) and isinstance(n.slice, ast.Tuple) and len(n.slice.elts) == 2 and \
+            not any(isinstance(e, (ast.Slice, ast.Starred)) for e in n.slice.elts):
+        return ast.unparse(n.value), ast.unparse(n.slice.elts[0]), ast.unparse(n.slice.elts[1])
+    return None
+
+
+def written_out_minors(fn: ast.AST) -> List[tuple]:
+    """(line, ok, text) for every  M[a,b]*M[c,d] - M[..]*M[..]  in fn"""
+    out = []
+    for n in ast.walk(fn):
+        if isinstance(n, ast.BinOp) and isinstance(n.op, ast.Sub) and isinstance(n.left, ast.BinOp) and \
+                isinstance(n.left.op, ast.Mult) and isinstance(n.right, ast.BinOp) and isinstance(n.right.op, ast.Mult):
+            es = [_elem(x) for x in (n.left.left, n.left.right, n.right.left, n.right.right)]
+            if any(e is None for e in es) or len({e[0] for e in es}) != 1:
+                continue
+            (_, a, b), (_, c, d) = es[0], es[1]
+            if a == c or b == d:
+                continue                       # not a diagonal product of a 2 x 2 block
+            rows, cols = {a, c}, {b, d}
+            x, y = es[2], es[3]
+            if not ({x[1], y[1]} <= rows and {x[2], y[2]} <= cols):
+                continue                       # indices from elsewhere: some other formula
+            want = {(a, d), (c, b)}
+            got = {(x[1], x[2]), (y[1], y[2])}
+            out.append((n.lineno, got == want, ast.unparse(n)[:110]))
     return out
